@@ -66,6 +66,7 @@ def derive(ctx, label, fuel, simulate=None, depth=None, seed=None, roots=None):
         if k not in seen:
             seen.add(k)
             uniq.append(e)
+    uniq.sort(key=lambda e: " ".join(e["toks"]))     # TLC workers print in no particular order
     return uniq
 
 
